@@ -11,6 +11,7 @@ enum {
 	VEV_POOL_DONE = 3,	/* a=ticket b=worker index c=status (outside lock) */
 	VEV_POOL_STORE = 4,	/* a=ticket (inside lock) */
 	VEV_POOL_RELEASE = 5,	/* a=ticket (handed to consumer side) */
+	VEV_POOL_SUBMITTED = 6,	/* submitting thread, after the pool mutex was released */
 	/* block processor backend */
 	VEV_BLK_IOSEQ = 10,	/* a=seq b=flags c=index */
 	VEV_BLK_WRITE = 11,	/* a=seq b=flags c=size */
